@@ -1110,7 +1110,14 @@ class Event(Boolean):
     @instance_descriptor
     def __set__(self, obj, val):
         if self._mode in ['set-reset', 'set']:
-            super().__set__(obj, val)
+            try:
+                super().__set__(obj, val)
+            except BaseException:
+                # A watcher raised after the value was stored: the event
+                # must not stay set.
+                if self._mode == 'set-reset' and self.__get__(obj, None) is val:
+                    self._reset_event(obj, val)
+                raise
         if self._mode in ['set-reset', 'reset']:
             self._reset_event(obj, val)
 
